@@ -62,6 +62,26 @@ CLAIMED = {
         'design_ref': 'DESIGN.md section 5 C15; NOTES-array.md',
         'technique': 'Coq proof (loop invariant on the guard machine) + event-trace correspondence with an instrumented element type (+ Miri in thorough)',
     },
+    'C06': {
+        'category': 'proof',
+        'text': ('Kernel-checked on a transcription of the derive macros\' decision logic over an abstract item syntax: the discriminant token splice (`#this + 1`, with the grouping rule) re-parsed by a '
+                 'precedence-climbing parser evaluates to the language rule "previous + 1" for ALL expressions of the grammar (C06_discr; the pre-fix splice is shown wrong); accepted structs and enums '
+                 'get exactly the documented wire type (fields in order, skipped omitted, tag = ordinal or discriminant; enums outside the type-dependent-discriminant class F12, C06_enum_refuted gives the witness); '
+                 'init hook runs once on success and never on failure; deserialize_variant(tag) = deserialize on tag::rest. PARTIAL: that the emitted Rust compiles, and bound inference, are validated by generated '
+                 'programs, not proved. ' + CORR + ' ~170 generated items (shapes, skips, discriminant expressions, generics, init hooks, *_with, macro-identifier field names) compiled against /repo per run, '
+                 'encode/decode/truncations/deserialize_variant/init-count vs the model; implementation-only oracle: tag byte == rustc\'s own discriminant. Known findings F10, F11, F12.'),
+        'design_ref': 'DESIGN.md section 5 C06; NOTES-derive.md',
+        'technique': 'Coq proof on a model of the macro logic + generated-program differential correspondence (cargo build per run)',
+    },
+    'C18': {
+        'category': 'proof',
+        'text': ('Kernel-checked on the transcription of check_attributes / field attribute checks / Discriminants::get / u8 tag typing: every rejection belongs to a violated rule of the property\'s list (C18_class) and, '
+                 'outside the two named classes implicit-overflow (F11) and type-dependent discriminant (F12), an item is rejected iff it violates a rule (C18_exact_partial; refutation witnesses for both classes are theorems). '
+                 'PARTIAL: rustc\'s diagnostics are observed, not modelled. ' + CORR + ' ~1,550 (item, derive) modules per run: one rule violation at every variant/field position plus positive controls, '
+                 'checked with cargo check --message-format=json, expansion-phase and type-check-phase negatives batched separately.'),
+        'design_ref': 'DESIGN.md section 5 C18; NOTES-derive.md',
+        'technique': 'Coq proof on a model of the macro checks + negative/positive generated-crate correspondence through rustc',
+    },
     'C09': {
         'category': 'proof',
         'text': ('Kernel-checked on a statement-by-statement transcription of max_serialized_size_impl/is_zero_size_impl (explicit stack, count multiplier, checked arithmetic, every early return): '
